@@ -286,6 +286,11 @@ def run_sequences(out, stream, cls, seqs):
         keep = [j for j, t in enumerate(io) if t is not None]
         seqs = [seqs[j] for j in keep]; io = [io[j] for j in keep]; mo = [mo[j] for j in keep]; coq_verdicts = [coq_verdicts[j] for j in keep]
     names = NAMES
+    # whether an OPERATION returned or raised is not this property's subject (C09, C15, C16 decide that): its mark is the same on both sides
+    def blur(seq, text):
+        steps = text.split("|")[:-1]
+        return "".join(((st[:-1] + "*") if k == 2 and st != "never-returned" and st[-1] in ".!" else st) + "|" for (k, f), st in zip(seq, steps)) + "".join(x + "|" for x in steps[len(seq):])
+    io = [blur(s_, t) for s_, t in zip(seqs, io)]; mo = [blur(s_, t) for s_, t in zip(seqs, mo)]
     cases = [{"cls": cls.__name__, "acts": [list(a) for a in s]} for s in seqs]
     lib.differential(out, stream, cases, io, mo, ["ok"] * len(cases), lambda c: c["cls"] + ": " + ", ".join("%s(%d)" % (names[k], f) for k, f in c["acts"]),
                      nontrivial=lambda c: any((k == 0 or 3 <= k <= 7) and f for k, f in c["acts"]), sample=lambda c: c, classify=lambda c, i: c["cls"] + "/len%d" % len(c["acts"]),
